@@ -13,6 +13,7 @@ import (
 	"os"
 	"strconv"
 	"sync"
+	"sync/atomic"
 	"time"
 
 	"github.com/bartossh/Computantis/src/cache"
@@ -322,6 +323,41 @@ func cacheMain(args []string) {
 		}
 		wg.Wait()
 		w.quiesce(expect, "free-running")
+		total += w.events
+	}
+	// (iv) the same transactions saved by every goroutine at once (and removed by their receivers at once):
+	// exactly one save and one removal of each takes effect, nothing is listed twice
+	for r := 0; r < rounds; r++ {
+		var pairs [][2]string
+		nh := 60
+		for i := 0; i < nh; i++ {
+			pairs = append(pairs, [2]string{cacheAddrs[rng.Intn(3)], cacheAddrs[rng.Intn(3)]})
+		}
+		w := newCacheWorld(enc, cacheAddrs, pairs)
+		var wg sync.WaitGroup
+		oks := make([]int32, nh)
+		for gi := 0; gi < 8; gi++ {
+			wg.Add(1)
+			go func() {
+				defer wg.Done()
+				for k := 0; k < nh; k++ {
+					if res, _ := w.do(cacheCall{"save", w.names[k], "none"}); res == "ok" {
+						atomic.AddInt32(&oks[k], 1)
+					}
+				}
+			}()
+		}
+		wg.Wait()
+		expect := []string{}
+		for k := 0; k < nh; k++ {
+			if oks[k] != 1 {
+				// more than one accepted save of one transaction: make the state unexplainable
+				expect = append(expect, fmt.Sprintf("%s-saved-%d-times", w.names[k], oks[k]))
+			} else {
+				expect = append(expect, w.names[k])
+			}
+		}
+		w.quiesce(expect, "same transactions saved concurrently")
 		total += w.events
 	}
 	bw.Flush()
